@@ -9,17 +9,36 @@
 (* CRCs are bit-at-a-time polynomial division, not table lookups.                        *)
 EXTENDS CodecBase
 
+\* one's-complement addition of two numbers below m = 2^bits: add, and add the carry out of the top bit back in
+\* (the "end-around carry" of RFC 1071 section 1)
+OcAdd(a, b, m) == LET s == a + b IN IF s >= m THEN s - m + 1 ELSE s
+RECURSIVE OcBytesFrom(_, _)
+OcBytesFrom(x, i) == IF i > Len(x) THEN 0 ELSE OcAdd(x[i], OcBytesFrom(x, i + 1), 256)
+CheckSum8(x) == 255 - OcBytesFrom(x, 1)
+\* big-endian 16-bit words; a trailing odd byte is the high byte of a word whose low byte is zero
+RECURSIVE OcWordsFrom(_, _)
+OcWordsFrom(x, i) == IF i > Len(x) THEN 0
+                     ELSE IF i = Len(x) THEN x[i] * 256
+                     ELSE OcAdd(x[i] * 256 + x[i + 1], OcWordsFrom(x, i + 2), 65536)
+CheckSum16(x) == 65535 - OcWordsFrom(x, 1)
+
+\* the same sums computed the other customary way: plain integer sum first, carries folded back afterwards - as often as
+\* it takes (one fold of S gives (S div m) + (S mod m), which can itself reach m: FFFF + FFFF + 0001 = 1FFFF -> 10000 -> 0001)
 RECURSIVE SumFrom(_, _)
 SumFrom(x, i) == IF i > Len(x) THEN 0 ELSE x[i] + SumFrom(x, i + 1)
 RECURSIVE Fold1c(_, _)
-Fold1c(s, m) == IF s >= m THEN Fold1c((s % m) + (s \div m), m) ELSE s        \* end-around carry
-CheckSum8(x) == 255 - Fold1c(SumFrom(x, 1), 256)
-
+Fold1c(s, m) == IF s >= m THEN Fold1c((s % m) + (s \div m), m) ELSE s        \* end-around carry, repeated
+FoldOnce(s, m) == (s % m) + (s \div m)
 RECURSIVE WordSumFrom(_, _)
 WordSumFrom(x, i) == IF i > Len(x) THEN 0
                      ELSE IF i = Len(x) THEN x[i] * 256
                      ELSE x[i] * 256 + x[i + 1] + WordSumFrom(x, i + 2)
-CheckSum16(x) == 65535 - Fold1c(WordSumFrom(x, 1), 65536)
+CheckSum8Folded(x) == 255 - Fold1c(SumFrom(x, 1), 256)
+CheckSum16Folded(x) == 65535 - Fold1c(WordSumFrom(x, 1), 65536)
+\* inputs at the carry boundary: one fold of the plain sum lands on m-1, m or just above
+AtFoldBoundary8(x) == FoldOnce(SumFrom(x, 1), 256) \in 255..257
+AtFoldBoundary16(x) == FoldOnce(WordSumFrom(x, 1), 65536) \in 65535..65537
+BytesOfWords(ws) == Flatten([i \in 1..Len(ws) |-> <<ws[i] \div 256, ws[i] % 256>>])
 
 \* ---- CRC-16/CCITT-FALSE ------------------------------------------------------------------------
 RECURSIVE Crc16Bits(_, _)
